@@ -40,6 +40,10 @@ TAGS = [
     [(0xC4, b"\x11"), (0xC1, b"\x22\x33")],
     [(0x10, bytes(range(208)))],
     [(0x11, bytes(100)), (0x12, bytes([0xFF]) * 106)],
+    # the encryption tag is only a description entry to the writer: what is stored follows the component's flag
+    [(0xC2, b"\x02")],
+    [(0xC2, b"\x00")],
+    [(0xC2, b"\x00\x02")],
 ]
 LENS = [16, 1, 15, 17, 31, 32, 33, 40, 41, 80]
 OFFS = [5, 0, 1, 9, 23, 105, 255, 256, 65535, 65536]
